@@ -179,7 +179,7 @@ def parse_swc(
     # Leading spaces are allowed, as this is part of the data in
     # neuromorpho.org. More fields at the end is allowed, such as
     # reading eswc as swc, but with a warning.
-    re_swc = re.compile(rf"^\s*{re_swc_cols_str}\s*([\s+\-.0-9]*)$")
+    re_swc = re.compile(rf"^\s*{re_swc_cols_str}(?:\s+([\s+\-.0-9]*))?$")
 
     last_group = 7 + len(extras) + 1
     ignored_comment = " ".join(names.cols())
